@@ -48,20 +48,24 @@ Print Assumptions entities_idempotent_partial.
 
 (* What does hold of "decoded text unchanged": on every [clean] input the output IS the decoding of the
    input (and, containing no '&', decodes to itself).  Missing: all other shapes; in general the clause
-   is false (entities_preserve_decoding_refuted, entities_hex_overflow_refuted). *)
+   is false (entities_preserve_decoding_refuted). *)
 Theorem entities_preserve_decoding_partial :
   forall em b o, clean b o ->
     replace_entities em [] b = Ok o /\ html_decode b = o /\ html_decode o = o.
 Proof. exact entities_preserve_decoding_partial_proof. Qed.
 Print Assumptions entities_preserve_decoding_partial.
 
-(* A second way the decoding clause fails, not in the property text: hexadecimal references are accumulated
-   in a Go int that wraps around, so `&#x10000000000000041;` (above U+10FFFF, U+FFFD in HTML, literal text
-   for html_decode) is replaced by `A`. *)
-Theorem entities_hex_overflow_refuted :
-  exists b, replace_entities [] [] b = Ok [65] /\ html_decode b = b.
-Proof. exact entities_hex_overflow_refuted_proof. Qed.
-Print Assumptions entities_hex_overflow_refuted.
+(* Over-long hexadecimal references are never decoded modulo anything: a reference `&#x` hs `;` whose value
+   (as an unbounded number, any number of digits) is 10000 or more, standing in text without other '&', is
+   left exactly as it is, for all maps.  (Before the fix a8361dd in /repo the accumulator wrapped modulo 2^64
+   and `&#x10000000000000041;` became `A`; the loop now stops once the accumulator reaches 0x10000.) *)
+Theorem entities_overlong_hex_unchanged :
+  forall em rm pre hs post,
+    forallb is_hex hs = true -> 10000 <= hex_num hs -> ~ In 38 pre -> ~ In 38 post ->
+    let b := pre ++ 38 :: 35 :: 120 :: hs ++ 59 :: post in
+    replace_entities em rm b = Ok b.
+Proof. exact entities_overlong_hex_unchanged_proof. Qed.
+Print Assumptions entities_overlong_hex_unchanged.
 
 (* ReplaceMultipleWhitespaceAndEntities (one loop doing both, entities replaced before later runs are
    compacted) neither panics nor runs out of fuel and returns exactly what ReplaceEntities returns on the
